@@ -3,8 +3,8 @@ package solver
 import "github.com/crillab/gophersat/zzvp"
 
 var vpStreamSkeletons = [][][]int{
-	{{4, 1}, {-4, 3, 5}, {5, 2, 1}},  // found by search: three improving results with unit-free clauses
-	{{1, 2}, {2, 3}},                  // short streams
+	{{4, 1}, {-4, 3, 5}, {5, 2, 1}}, // found by search: three improving results with unit-free clauses
+	{{1, 2}, {2, 3}},                // short streams
 	{{1, 2, 3}},
 }
 
